@@ -76,6 +76,16 @@ struct VmSharedReadonly {
     foreign_function_policies: Vec<ForeignCallPolicy>,
 }
 
+impl Drop for VmSharedReadonly {
+    fn drop(&mut self) {
+        // static strings are not on any thread's heap list. Each was leaked from a Box by
+        // StringObject::new_static and lives until the last thread sharing the program is gone.
+        for &s in &self.static_strings {
+            let _ = unsafe { Box::from_raw(s) };
+        }
+    }
+}
+
 /*
 The CLI or some other program will
    2. initialize the worker pool (pool of real OS threads which will run the green threads) (OR JUST USE RAYON)
